@@ -37,6 +37,7 @@ type Task struct {
 	wake     chan bool // true = continue, false = abort
 	state    taskState
 	want     *simhook.Mutex
+	shared   bool // want is a shared (read) acquisition
 	sleepFor time.Duration
 	joinOn   []*Task
 	client   bool
@@ -50,8 +51,9 @@ type Task struct {
 type abortSentinel struct{}
 
 type lockInfo struct {
-	holder *Task
-	name   string
+	holder  *Task // exclusive holder
+	readers int   // shared holders (read-write mutexes)
+	name    string
 }
 
 type Sched struct {
@@ -258,6 +260,35 @@ func (s *Sched) Lock(m *simhook.Mutex) {
 	// the scheduler made us the holder before waking us
 }
 
+// RLock implements simhook.Scheduler (shared acquisition).
+func (s *Sched) RLock(m *simhook.Mutex) {
+	t := s.cur()
+	if t == nil {
+		return
+	}
+	s.mu.Lock()
+	s.lockName(m)
+	t.want = m
+	t.shared = true
+	s.mu.Unlock()
+	s.park(t, tsParked, "rlock")
+}
+
+// RUnlock implements simhook.Scheduler.
+func (s *Sched) RUnlock(m *simhook.Mutex) {
+	s.mu.Lock()
+	defer s.mu.Unlock()
+	if s.aborted {
+		return
+	}
+	li := s.lockName(m)
+	if li.readers <= 0 {
+		s.Misuse = append(s.Misuse, "RUnlock of a mutex that is not read-locked "+li.name+" (sync.RWMutex would crash the process)")
+		return
+	}
+	li.readers--
+}
+
 // Unlock implements simhook.Scheduler.
 func (s *Sched) Unlock(m *simhook.Mutex) {
 	s.mu.Lock()
@@ -346,7 +377,9 @@ func (s *Sched) runnableLocked() []*Task {
 	for _, t := range s.tasks {
 		switch t.state {
 		case tsParked:
-			if t.want == nil || s.locks[t.want].holder == nil {
+			if t.want == nil {
+				r = append(r, t)
+			} else if li := s.locks[t.want]; li.holder == nil && (t.shared || li.readers == 0) {
 				r = append(r, t)
 			}
 		case tsSleep:
@@ -429,9 +462,14 @@ func (s *Sched) Loop(root *Task) {
 		s.last = pick
 		if pick.state == tsParked && pick.want != nil {
 			li := s.locks[pick.want]
-			li.holder = pick
-			pick.held = append(pick.held, pick.want)
+			if pick.shared {
+				li.readers++
+			} else {
+				li.holder = pick
+				pick.held = append(pick.held, pick.want)
+			}
 			pick.want = nil
+			pick.shared = false
 		}
 		var d time.Duration
 		if pick.state == tsSleep {
@@ -469,9 +507,14 @@ func (s *Sched) abort() {
 		pick := r[0]
 		if pick.state == tsParked && pick.want != nil {
 			li := s.locks[pick.want]
-			li.holder = pick
-			pick.held = append(pick.held, pick.want)
+			if pick.shared {
+				li.readers++
+			} else {
+				li.holder = pick
+				pick.held = append(pick.held, pick.want)
+			}
 			pick.want = nil
+			pick.shared = false
 		}
 		pick.state = tsRunning
 		s.mu.Unlock()
@@ -515,6 +558,8 @@ func (s *Sched) HeldLocks() []string {
 	for _, li := range s.locks {
 		if li.holder != nil {
 			out = append(out, li.name+" held by "+li.holder.Name)
+		} else if li.readers > 0 {
+			out = append(out, fmt.Sprintf("%s read-locked %d times", li.name, li.readers))
 		}
 	}
 	sort.Strings(out)
